@@ -397,3 +397,15 @@ Definition seq_spec_code (c : ecase) (q2 : query) (quiet : bool) (base t : list 
       + b2z (forallb (fun x => pulls_in_orderb x t) (vars_of t)) 2
       + b2z (negb quiet || same_pulls base t) 4
       + b2z (examined_okb (mk_domains (e_doms c)) [e_query c; q2] (map fst (e_doms c)) t) 8)%Z.
+
+(* flatten over one-shot iterators (implementation's logs only; Eql/Trace.v does not model iterator-valued data): the flattened
+   iterators are numbered like variables, [gens] lists their elements.  1 rows / log of the n-stopped run are not prefixes
+   of the full run's; 2 an iterator was not consumed as the prefix 0,1,2,...; 8 an element was pulled from a flattened
+   iterator and not looked at (attribute read, or handed out) before more was pulled / the iterator was finished / the log
+   ended -- so after k results no more than the elements up to the k-th result's have been taken *)
+Definition flat_spec_code (gens : list (var * list val)) (full : list event) (ks : list (list event)) : sx :=
+  let nk := combine (seq 0 (length ks)) ks in
+  let all := full :: ks in
+  SZ (b2z (forallb (fun p => rows_eqb (rows_of (snd p)) (firstn (fst p) (rows_of full)) && prefixb (snd p) full) nk) 1
+      + b2z (forallb (fun t => forallb (fun x => pulls_in_orderb x t) (vars_of full)) all) 2
+      + b2z (forallb (fun g => forallb (examined_scan (mk_domains gens) (fst g) None) all) gens) 8)%Z.
